@@ -16,6 +16,7 @@ mod h_parse;
 mod h_prog;
 mod h_simplify;
 mod h_sound;
+mod h_token;
 mod session;
 mod sym;
 mod units;
@@ -46,6 +47,7 @@ const ENTRIES: &[(&str, Entry)] = &[
     ("h_c05_simplify", h_simplify::h_c05_simplify),
     ("h_c03_arith", h_arith::h_c03_arith),
     ("h_c01_sound", h_sound::h_c01_sound),
+    ("h_c08_tokenizer", h_token::h_c08_tokenizer),
     ("h_c10_parse", h_parse::h_c10_parse),
     ("h_c18_step", h_list::h_c18_step),
     ("h_c18_hist", h_list::h_c18_hist),
